@@ -1486,4 +1486,123 @@ Section Sound.
     destruct (msg_size sch tm pv <? N.of_nat (length (EM tm pv))); [discriminate|].
     intros E. injection E as <-. rewrite app_length. lia.
   Qed.
+
+  (* ---- the range predicate is closed under the decoder's normalisation ---- *)
+  Notation R := (range_preds vr o sch ann).
+  Hypothesis Hfty : fmap_typed o.
+  (* a FieldMapper for bytes fields does not tell nil from empty (the wire cannot) *)
+  Definition fmap_bytes_norm : Prop :=
+    forall decl p g, (o_fmap o KBytes decl = FmAlways p g \/ o_fmap o KBytes decl = FmMaybe p g) -> p (VBytes []) = p VNil.
+  Hypothesis Hfbn : fmap_bytes_norm.
+
+  Lemma rg_scalar_bytes_swap d a b : (a = VNil /\ b = VBytes []) \/ (a = VBytes [] /\ b = VNil) ->
+    rg_scalar vr o KBytes d a = true -> rg_scalar vr o KBytes d b = true.
+  Proof.
+    intros Hab. unfold rg_scalar. destruct (o_fmap o KBytes d) as [|p g|p g] eqn:E.
+    - destruct Hab as [[-> ->]|[-> ->]]; reflexivity.
+    - pose proof (Hfbn d p g (or_introl E)) as H. destruct Hab as [[-> ->]|[-> ->]]; congruence.
+    - pose proof (Hfbn d p g (or_intror E)) as H. intros H1. apply orb_true_iff in H1. apply orb_true_iff.
+      destruct Hab as [[-> ->]|[-> ->]]; (destruct H1 as [H1|H1]; [left; congruence|right; reflexivity]).
+  Qed.
+
+  Lemma rg_scalar_norm_elem k d v : rg_scalar vr o k d v = true -> rg_scalar vr o k d (norm_scalar k v) = true.
+  Proof.
+    intros H. destruct k; try exact H. destruct v; try exact H. cbn [norm_scalar]. eapply rg_scalar_bytes_swap; [|exact H]. left. split; reflexivity.
+  Qed.
+
+  Lemma rg_scalar_norm_singular d s : rg_scalar vr o KBytes d s = true ->
+    rg_scalar vr o KBytes d (if present KBytes s then s else VNil) = true.
+  Proof.
+    intros H. destruct (present KBytes s) eqn:Ep; [exact H|].
+    pose proof (rg_scalar_wt vr o KBytes d s Hfty H) as Hw. destruct s; try discriminate; [|exact H].
+    destruct l; [|discriminate]. eapply rg_scalar_bytes_swap; [|exact H]. right. split; reflexivity.
+  Qed.
+
+  Lemma norm_is_msgv m x : is_msgv x = true -> is_msgv (norm sch m x) = true.
+  Proof. destruct x; try discriminate. intros _. rewrite RoundTrip.norm_unfold. destruct (get_msg sch m); reflexivity. Qed.
+
+  Lemma norm_elem_msg m x : is_msgv x = true -> norm_elem sch (norm sch) (TMsg m) x = norm sch m x.
+  Proof. destruct x; try discriminate. reflexivity. Qed.
+
+  Lemma map_id_ext {A} (g : A -> A) l : (forall x, In x l -> g x = x) -> map g l = l.
+  Proof. induction l as [|a l IH]; intros H; [reflexivity|]. cbn [map]. rewrite (H a (or_introl eq_refl)), IH; [reflexivity|]. intros x Hx. apply H. right. exact Hx. Qed.
+
+  Lemma slot_norm (rec : rec_t) r p f fa s :
+    (forall pp ic tm e, rec pp ic tm e = true -> rec pp ic tm (norm sch tm e) = true) ->
+    slot_deep R rec r p f fa s = true -> slot_deep R rec r p f fa (norm_slot sch (norm sch) f s) = true.
+  Proof.
+    intros Hrec. unfold slot_deep, norm_slot, elem_deep. cbn [p_slot p_scalar range_preds]. unfold rg_slot.
+    intros H. apply andb_true_iff in H. destruct H as [Hl Hd].
+    destruct (f_shape f) as [|packed|oi|kk] eqn:Es; destruct (f_ty f) as [k|tm] eqn:Et.
+    - (* singular scalar *)
+      apply andb_true_iff. split; [reflexivity|]. destruct k; try exact Hd. apply rg_scalar_norm_singular. exact Hd.
+    - destruct s; try discriminate; [apply andb_true_iff; split; assumption|].
+      apply andb_true_iff. split.
+      + pose proof (norm_is_msgv tm (VMsg slots unk) eq_refl) as Hm. destruct (norm sch tm (VMsg slots unk)); try discriminate. exact Hl.
+      + pose proof (norm_is_msgv tm (VMsg slots unk) eq_refl) as Hm. pose proof (Hrec _ _ _ _ Hd) as Hd'.
+        destruct (norm sch tm (VMsg slots unk)); try discriminate. exact Hd'.
+    - (* repeated scalar *)
+      apply andb_true_iff in Hl. destruct Hl as [He Hl].
+      destruct s; cbn [rep_len] in Hl; try discriminate; [apply andb_true_iff; split; [apply andb_true_iff; split; assumption|reflexivity]|].
+      destruct l as [|e l].
+      + apply andb_true_iff. split; [|reflexivity]. apply andb_true_iff. split; [reflexivity|exact Hl].
+      + apply andb_true_iff. split.
+        * apply andb_true_iff. split; [reflexivity|]. cbn [rep_len]. unfold len_le in *. rewrite !map_length. exact Hl.
+        * apply forallb_forall. intros x Hx. apply in_map_iff in Hx. destruct Hx as (y & <- & Hy).
+          eapply forallb_forall in Hd; [|exact Hy]. cbn [norm_elem]. apply rg_scalar_norm_elem. exact Hd.
+    - (* repeated message *)
+      apply andb_true_iff in Hl. destruct Hl as [He Hl].
+      destruct s; cbn [rep_len] in Hl; try discriminate; [apply andb_true_iff; split; [apply andb_true_iff; split; assumption|reflexivity]|].
+      destruct l as [|e l].
+      + apply andb_true_iff. split; [|reflexivity]. apply andb_true_iff. split; [reflexivity|exact Hl].
+      + destruct (child_ok_container vr o ann r tm) eqn:Eok; [|cbn [v_list_truncate repaired is_nilb] in Hl; discriminate].
+        apply andb_true_iff in Hl. destruct Hl as [Hlen Hm].
+        assert (E2 : (2 <=? r)%nat = true) by (unfold child_ok_container in Eok; apply andb_true_iff in Eok; tauto). rewrite E2 in Hd.
+        assert (Hmap : map (norm_elem sch (norm sch) (TMsg tm)) (e :: l) = map (norm sch tm) (e :: l)).
+        { apply map_ext_in. intros x Hx. apply norm_elem_msg. eapply forallb_forall in Hm; eauto. }
+        rewrite Hmap. apply andb_true_iff. split.
+        * cbn [map rep_len]. apply andb_true_iff. split; [reflexivity|]. apply andb_true_iff. split.
+          -- unfold len_le in *. cbn [length] in *. rewrite map_length. exact Hlen.
+          -- change (forallb is_msgv (map (norm sch tm) (e :: l)) = true). apply forallb_forall. intros x Hx. apply in_map_iff in Hx.
+             destruct Hx as (y & <- & Hy). apply norm_is_msgv. eapply forallb_forall in Hm; eauto.
+        * rewrite E2. apply forallb_forall. intros x Hx. apply in_map_iff in Hx. destruct Hx as (y & <- & Hy).
+          pose proof Hy as Hy'. eapply forallb_forall in Hy; [|exact Hd]. eapply forallb_forall in Hy'; [|exact Hm]. cbv beta in Hy.
+          pose proof (norm_is_msgv tm y Hy') as Hn. destruct y; try discriminate. apply Hrec in Hy.
+          destruct (norm sch tm (VMsg slots unk)); try discriminate. exact Hy.
+    - (* member scalar *)
+      destruct s; try discriminate; [apply andb_true_iff; split; reflexivity|]. apply andb_true_iff. split; [reflexivity|].
+      cbn [norm_elem]. apply rg_scalar_norm_elem. exact Hd.
+    - (* member message *)
+      destruct s; try discriminate; [apply andb_true_iff; split; reflexivity|]. destruct s; try discriminate.
+      pose proof (norm_is_msgv tm (VMsg slots unk) eq_refl) as Hm. pose proof (Hrec _ _ _ _ Hd) as Hd'. cbn [norm_elem].
+      destruct (norm sch tm (VMsg slots unk)); try discriminate. apply andb_true_iff. split; [exact Hl|exact Hd'].
+    - (* map, scalar values *)
+      destruct s; cbn [map_kvs] in Hl; try discriminate; [apply andb_true_iff; split; [exact Hl|reflexivity]|].
+      destruct kvs as [|e l]; [apply andb_true_iff; split; [exact Hl|reflexivity]|].
+      splitb. apply andb_true_iff. split.
+      + cbn [map_kvs]. rewrite map_map. cbn [fst]. apply andb_true_iff. split; [apply andb_true_iff; split|reflexivity].
+        * unfold len_le in *. rewrite map_length. assumption.
+        * assumption.
+      + apply forallb_forall. intros x Hx. apply in_map_iff in Hx. destruct Hx as ([a b] & <- & Hy).
+        eapply forallb_forall in Hd; [|exact Hy]. cbn [fst snd] in *. splitb. apply andb_true_iff. split; [assumption|].
+        cbn [norm_elem]. apply rg_scalar_norm_elem. assumption.
+    - (* map, message values *)
+      destruct s; cbn [map_kvs] in Hl; try discriminate; [apply andb_true_iff; split; [exact Hl|reflexivity]|].
+      destruct kvs as [|e l]; [apply andb_true_iff; split; [exact Hl|reflexivity]|].
+      splitb. apply andb_true_iff. split.
+      + cbn [map_kvs]. rewrite map_map. cbn [fst].
+        apply andb_true_iff; split; [apply andb_true_iff; split|apply andb_true_iff; split].
+        * unfold len_le in *. rewrite map_length. assumption.
+        * assumption.
+        * match goal with Ht : is_nilb (_ :: _) || _ = true |- _ => exact Ht end.
+        * apply forallb_forall. intros x Hx. apply in_map_iff in Hx. destruct Hx as ([a b] & <- & Hy). cbn [fst snd].
+          match goal with Hm : forallb (fun kv => is_msgv (snd kv)) _ = true |- _ => eapply forallb_forall in Hm; [|exact Hy]; cbn [snd] in Hm end.
+          rewrite norm_elem_msg by assumption. apply norm_is_msgv. assumption.
+      + apply forallb_forall. intros x Hx. apply in_map_iff in Hx. destruct Hx as ([a b] & <- & Hy).
+        pose proof Hy as Hy'. eapply forallb_forall in Hy; [|exact Hd]. cbn [fst snd] in *. apply andb_true_iff in Hy. destruct Hy as [Hk Hv].
+        apply andb_true_iff. split; [exact Hk|].
+        match goal with Hm : forallb (fun kv => is_msgv (snd kv)) _ = true |- _ => eapply forallb_forall in Hm; [|exact Hy']; cbn [snd] in Hm end.
+        rewrite norm_elem_msg by assumption. pose proof (norm_is_msgv tm b ltac:(assumption)) as Hn.
+        destruct b; try discriminate. apply Hrec in Hv. destruct (norm sch tm (VMsg slots unk)); try discriminate. exact Hv.
+  Qed.
 End Sound.
